@@ -27,6 +27,7 @@ LEX_FILE = None
 YACC_FILE = None
 _ROOTS = ()
 _THIS_FILE = os.path.abspath(__file__)
+_HOSTS_FILE = os.path.join(os.path.dirname(_THIS_FILE), "host", "shorthand_hosts.py")
 HOSTS = None  # set by init(with_hosts=True): shorthand hosts for sa_core/sa_orm/django ops
 
 
@@ -306,6 +307,7 @@ class RunState:
         self.par_last = [None] * plan["n_parsers"]
         self.in_action = [False] * len(plan["clients"])   # for parked clients
         self.in_parse = [False] * len(plan["clients"])
+        self.last_parse = [None] * len(plan["clients"])   # outcome of the latest Parser.parse
         self.limbo = []          # weakrefs to the cycle cells of lingering aborts
         self.streams = {}        # key -> info of tracked suspended token streams
         self.stream_seq = 0
@@ -400,6 +402,15 @@ class Engine:
                 st.probes["preempt_inside_shorthand_parse"] += 1
             if any(st.in_parse[c] for c in range(sim.n) if c != cid and sim.in_op[c]):
                 st.probes["two_clients_inside_parse"] += 1
+
+    def on_watch(self, sim, frame, event, arg):
+        """return / exception event of yacc.Parser.parse in the running client: what
+        the (possibly library-internal) parse produced."""
+        cid = sim.current
+        if event == "exception":
+            self.st.last_parse[cid] = canon_exc(arg[1])
+        elif arg is not None:
+            self.st.last_parse[cid] = canon_ast(arg)
 
     def on_no_progress(self, sim, cur_op):
         cid, opi, op = cur_op
@@ -570,6 +581,7 @@ class Engine:
         status = "ok"
         sim.note("op-start", cid, op["id"], kind, li, pj)
         try:
+            st.last_parse[cid] = None
             sim.begin_op(cid, opi, op, dry_n)
             try:
                 outcome, live = run_body(op, lexer, parser, keep)
@@ -601,11 +613,9 @@ class Engine:
             req = op_request(op)
             expected = self.refs[req]
             if kind in ("sa_core", "sa_orm", "django"):
-                got = outcome[0]     # what the shorthand's internal parse produced
-                full = outcome
+                got = st.last_parse[cid]   # what the shorthand's internal parse produced
             else:
                 got = outcome
-                full = outcome
             st.outcomes[op["id"]] = got
             if live is not None:
                 st.returned.append((op["id"], kind, op.get("text"), live, repr(live)))
@@ -646,7 +656,7 @@ def execute(plan, pristine, dry, deep=False, timeout=60.0):
     eng = Engine(plan, refs, dry, opcode)
     st = eng.st
     sim = Sim(plan, traced, eng.run_op, eng.fire, engine=eng, deep_log=deep,
-              op_frame_files=[_THIS_FILE])
+              op_frame_files=[_THIS_FILE, _HOSTS_FILE], watch_code=PARSE_CODE)
     gc_was = gc.isenabled()
     gc.disable()
     try:
@@ -748,8 +758,46 @@ def gen_probe_for_aliases(rng, pairs):
     return "%s in (1, 2) and name eq '%s'" % (k, k)
 
 
+def gen_directed(rng, seed, run, pool, dry):
+    """Directed scenario (about one run in eight): client 0 aborts a parse on lexer 0,
+    starts a second tokenisation on the same lexer and is pre-empted inside a token
+    action; client 1 then makes the stale stream die - either by re-using the parser
+    that still references it (prompt close in another thread) or through a collector
+    pass (lingering exception).  Texts, positions and the rest stay random."""
+    via_gc = rng.random() < 0.5
+    opcode = rng.random() < 0.1
+    bad = rng.choice(pool["bad"])
+    good = rng.choice(pool["valid"])
+    other = rng.choice(pool["valid"] + pool["bad"])
+    o0 = {"id": "c0o0", "kind": "parse", "text": bad, "lexer": 0,
+          "parser": -1 if via_gc else 0, "linger": via_gc}
+    o1 = {"id": "c0o1", "kind": rng.choice(["parse", "parse", "tokenize_all"]), "text": good,
+          "lexer": 0, "parser": 1, "linger": False}
+    b0 = {"id": "c1o0", "kind": "parse", "text": other, "lexer": 1,
+          "parser": 2 if via_gc else 0, "linger": False}
+    plan = {"property": "C20", "seed": seed, "run": run,
+            "granularity": "opcode" if opcode else "line", "n_lexers": 2, "n_parsers": 3,
+            "start": 0, "clients": [{"ops": [o0, o1]}, {"ops": [b0]}], "points": [],
+            "directed": "gc" if via_gc else "prompt"}
+    if rng.random() < 0.5:
+        plan["clients"][1]["ops"].append(
+            {"id": "c1o1", "kind": "parse", "text": rng.choice(pool["valid"]),
+             "lexer": rng.randrange(2), "parser": rng.randrange(3), "linger": False})
+    n1, inter1 = dry.get(o1, opcode)
+    acts = inter1["action"] or [max(1, n1 // 2)]
+    plan["points"].append({"op": "c0o1", "at": rng.choice(acts), "kind": "preempt", "to": 1})
+    nb, interb = dry.get(b0, opcode)
+    if via_gc:
+        plan["points"].append({"op": "c1o0", "at": rng.randint(1, max(1, nb)), "kind": "gc"})
+    for i, p in enumerate(plan["points"]):
+        p["ord"] = i
+    return plan
+
+
 def gen_plan(seed, run, pool, dry, shorthand=False, max_clients=4, max_ops=5):
     rng = random.Random(seed * 1000003 + run)
+    if max_clients >= 2 and rng.random() < 0.125:
+        return gen_directed(rng, seed, run, pool, dry)
     nclients = rng.choice([1, 1, 1, 2, 2, 2, 2, 3, 3, 4][:max(1, min(10, 3 + 2 * max_clients - 2))])
     nclients = min(nclients, max_clients)
     nl = rng.randint(1, 3)
@@ -950,6 +998,8 @@ def worker_setup(opts):
     """Called once per worker process, before the process has parsed anything."""
     from . import pristine
     init(with_hosts=bool(opts.get("shorthand")))
+    from .sched import warm_up_opcode_tracing
+    warm_up_opcode_tracing()
     _W["pristine"] = pristine.Pristine(reference)
     _W["dry"] = DryCache()
     _W["pools"] = {}
@@ -998,10 +1048,10 @@ def tier_config(tier):
     if tier == "thorough":
         return {"runs": 400000, "chunk": 100, "determinism_plans": 60, "max_violations": 6,
                 "min_budget": 400, "wall_limit_s": 3 * 3600, "sweep_hashseeds": 32,
-                "sweep_orders": 8, "opts": {"shorthand": False}}
+                "sweep_orders": 8, "opts": {"shorthand": True}}
     return {"runs": 5000, "chunk": 25, "determinism_plans": 20, "max_violations": 4,
             "min_budget": 300, "wall_limit_s": 1500, "sweep_hashseeds": 4,
-            "sweep_orders": 3, "opts": {"shorthand": False}}
+            "sweep_orders": 3, "opts": {"shorthand": True}}
 
 
 def required_probes(tier, cfg):
